@@ -631,6 +631,15 @@ pub fn write_replay_tier(check: &dyn Erased, seed: u64, index: u64, rule: &str, 
     path
 }
 
+pub fn write_history_replay(check: &dyn Erased, seed: u64, upto: u64, rule: &str, msg: &str, tier: Tier) -> PathBuf {
+    let dir = out_dir().join("replays");
+    let _ = std::fs::create_dir_all(&dir);
+    let path = dir.join(format!("{}-{}-history{}-{}.json", check.id(), seed, upto, rule));
+    let body = json!({"property": check.id(), "rule": rule, "message": msg, "seed": seed, "index": upto, "tier": tier.name(), "scenario": Value::Null, "history_upto": upto});
+    let _ = std::fs::write(&path, serde_json::to_string_pretty(&body).unwrap());
+    path
+}
+
 /// Re-executes a replay file. Returns (reproduced, report text).
 pub fn replay_file(checks: &[Box<dyn Erased>], path: &str) -> i32 {
     let Ok(s) = std::fs::read_to_string(path) else {
@@ -647,6 +656,22 @@ pub fn replay_file(checks: &[Box<dyn Erased>], path: &str) -> i32 {
         eprintln!("unknown property {id}");
         return 2;
     };
+    // a history: the evaluations 0..=upto of the batch, one after the other on this thread of a fresh process (the code
+    // under simulation keeps state between runs, so that no single scenario shows the violation on its own)
+    if let Some(upto) = v["history_upto"].as_u64() {
+        let seed = v["seed"].as_u64().unwrap_or(1);
+        let tier = if v["tier"].as_str() == Some("thorough") { Tier::Thorough } else { Tier::Quick };
+        for i in 0..=upto {
+            let (rep, _) = check.run_index(seed, i, tier, false);
+            if let Some(viol) = rep.violations.iter().find(|x| x.rule == rule) {
+                println!("replayed violation property={id} rule={} : after the evaluations 0..{i} of the batch in this order: {}", viol.rule, viol.message);
+                println!("VIOLATION property={id} replay={path}");
+                return 1;
+            }
+        }
+        println!("replay did not reproduce rule {rule}");
+        return 0;
+    }
     // a replay of a run that never terminates must itself terminate
     let limit = stuck_limit_s();
     let scv = v["scenario"].clone();
@@ -783,6 +808,32 @@ pub fn run_check(check: &dyn Erased, tier: Tier) -> i32 {
             if ci + 1 < ncand {
                 continue 'cands;
             }
+            // last resort: the batch itself as the history (evaluations 0..=upto in order, single thread, fresh process)
+            let upto = cands.iter().take(ncand).map(|c| c.0).max().unwrap_or(*index).saturating_add(4096).min(60_000);
+            let hpath = write_history_replay(check, seed, upto, rule, &viol.message, tier);
+            let fresh = std::env::current_exe().ok().and_then(|exe| {
+                std::process::Command::new(exe).args(["replay", &hpath.display().to_string()]).env("VERIF_WORKERS", "1").output().ok()
+            });
+            let out = fresh.map(|o| String::from_utf8_lossy(&o.stdout).to_string()).unwrap_or_default();
+            if out.contains(&format!("VIOLATION property={}", check.id())) {
+                let first = out.lines().find(|l| l.starts_with("replayed violation")).unwrap_or("").to_string();
+                // the history ends where the violation showed (a shorter replay file that fails the same way)
+                let shown: Option<u64> = first.split("evaluations 0..").nth(1).and_then(|r| r.split(' ').next()).and_then(|n| n.parse().ok());
+                let _ = std::fs::remove_file(&hpath);
+                let hpath = write_history_replay(check, seed, shown.unwrap_or(upto), rule, &viol.message, tier);
+                println!(
+                    "violation: property={} rule={} seed={} index={} (no single scenario repeats it: the code under simulation keeps state between runs; the replay file is the batch prefix as a history): {}",
+                    check.id(),
+                    rule,
+                    seed,
+                    index,
+                    first
+                );
+                println!("VIOLATION property={} replay={}", check.id(), hpath.display());
+                reported += 1;
+                break 'cands;
+            }
+            let _ = std::fs::remove_file(&hpath);
             println!(
                 "HARNESS-ERROR property={} rule={} index={} does not replay deterministically ({} violating evaluations of this rule tried)",
                 check.id(),
